@@ -446,3 +446,97 @@ package desync
 //@   oncall GetChunk: requires !isInFlight
 //@   oncall wait: requires held(q.storeChunkQueue.mu) == 0 && isInFlight
 //@   ensures held(q.storeChunkQueue.mu) == old(held(q.storeChunkQueue.mu))
+
+// ---------------------------------------------------------------------------- C09: random access through an index
+
+//# well-formed chunk table (absolute positions): consecutive chunks are adjacent, end offsets are
+//# non-decreasing, every offset is far below 2^63
+//@ spec func cend(cs []IndexChunk, j int) int = elem(cs, j).Start + elem(cs, j).Size
+//@ spec func wfChunks(cs []IndexChunk) bool = offsetsBounded(cs) && (len(cs) > 0 ==> cs[0].Start == 0) && \
+//@     (forall j int :: inrng(cs, j) ==> elem(cs, j).Size > 0) && \
+//@     (forall j int :: inrng(cs, j) && inrng(cs, j+1) ==> elem(cs, j+1).Start == cend(cs, j)) && \
+//@     (forall j int, k int :: inrng(cs, j) && inrng(cs, k) && j <= k ==> cend(cs, j) <= cend(cs, k) && elem(cs, j).Start <= elem(cs, k).Start)
+
+//# truthful index: the size recorded for a chunk is the length of the data its ID stands for.
+//# idLen is well defined because H is treated as collision-free (axiom hashLen).
+//@ spec func idLen(id ChunkID) int
+//@ axiom hashLen: forall b Bytes :: blen(b) == idLen(H(b))
+//@ spec func truthful(cs []IndexChunk) bool = forall j int :: inrng(cs, j) ==> idLen(elem(cs, j).ID) == elem(cs, j).Size
+
+//# representation invariant of IndexPos (an index without chunks is the empty blob)
+//@ spec func wfPosNonEmpty(ip *IndexPos) bool = len(ip.Index.Chunks) > 0 && \
+//@     (len(ip.curChunk) == 0 || len(ip.curChunk) == idLen(ip.curChunkID)) && \
+//@     len(ip.nullChunk.Data) == idLen(ip.nullChunk.ID) && \
+//@     0 <= ip.curChunkIdx && ip.curChunkIdx < len(ip.Index.Chunks) && \
+//@     0 <= ip.curChunkOffset && ip.curChunkOffset <= ip.Index.Chunks[ip.curChunkIdx].Size && \
+//@     (ip.curChunkOffset < ip.Index.Chunks[ip.curChunkIdx].Size || ip.curChunkIdx == len(ip.Index.Chunks) - 1) && \
+//@     ip.pos == ip.Index.Chunks[ip.curChunkIdx].Start + ip.curChunkOffset && \
+//@     ip.curChunkID == ip.Index.Chunks[ip.curChunkIdx].ID
+//@ spec func wfPosEmpty(ip *IndexPos) bool = len(ip.Index.Chunks) == 0 && ip.pos == 0 && ip.curChunkIdx == 0 && ip.curChunkOffset == 0 && len(ip.curChunk) == 0
+//@ spec func wfPos(ip *IndexPos) bool = wfChunks(ip.Index.Chunks) && truthful(ip.Index.Chunks) && \
+//@     ip.Length == indexLength(ip.Index) && ip.nullChunk != nil && (wfPosEmpty(ip) || wfPosNonEmpty(ip))
+
+//@ func (ip *IndexPos) findOffset
+//@   prop C09
+//@   requires wfPos(ip) && newPos >= 0
+//@   modifies ip.pos, ip.curChunk, ip.curChunkIdx, ip.curChunkID, ip.curChunkOffset
+//@   ensures wfPos(ip)
+//@   ensures r1 == nil ==> ip.pos == newPos && r0 == newPos
+//@   ensures r1 != nil ==> ip.pos == old(ip.pos) && r0 == old(ip.pos) && ip.curChunkIdx == old(ip.curChunkIdx) && ip.curChunkOffset == old(ip.curChunkOffset) && ip.curChunk == old(ip.curChunk)
+//@   ensures ip.curChunkID == old(ip.curChunkID) ==> ip.curChunk == old(ip.curChunk)
+//@   ensures ip.curChunkID != old(ip.curChunkID) ==> len(ip.curChunk) == 0
+//@   ensures newPos <= ip.Length ==> r1 == nil
+
+//@ func (ip *IndexPos) Seek
+//@   prop C09
+//@   requires wfPos(ip)
+//@   modifies ip.pos, ip.curChunk, ip.curChunkIdx, ip.curChunkID, ip.curChunkOffset
+//@   ensures wfPos(ip)
+//@   ensures r1 == nil && whence == 0 ==> ip.pos == offset && r0 == offset
+//@   ensures r1 == nil && whence == 1 ==> ip.pos == old(ip.pos) + offset && r0 == ip.pos
+//@   ensures r1 == nil && whence == 2 ==> ip.pos == ip.Length + offset && r0 == ip.pos
+//@   ensures r1 == nil ==> ip.pos <= ip.Length
+//@   ensures whence == 1 && 0 <= old(ip.pos) + offset && old(ip.pos) + offset <= ip.Length ==> r1 == nil
+//@   ensures r1 != nil && r1 != io.EOF ==> ip.pos == old(ip.pos) && r0 == old(ip.pos)
+//@   ensures ip.curChunkID == old(ip.curChunkID) ==> ip.curChunk == old(ip.curChunk)
+//@   ensures ip.curChunkID != old(ip.curChunkID) ==> len(ip.curChunk) == 0
+
+//@ func (ip *IndexPos) loadChunk
+//@   prop C09 C03
+//@   requires wfPos(ip) && !ip.Store.$skip && len(ip.Index.Chunks) > 0
+//@   modifies ip.curChunk, heap(Chunk.data), ip.Store.$gets, ip.Store.$lastErr
+//@   ensures wfPos(ip)
+//@   ensures r0 == nil && ip.curChunkID != ip.nullChunk.ID ==> H(bytes(ip.curChunk)) == ip.curChunkID
+//@   ensures r0 == nil && ip.curChunkID == ip.nullChunk.ID ==> ip.curChunk == ip.nullChunk.Data
+//@   ensures r0 != nil ==> ip.curChunk == old(ip.curChunk)
+//@   ensures ip.Store.$lastErr != nil && ip.Store.$gets != old(ip.Store.$gets) ==> r0 != nil
+
+//@ func (ip *IndexPos) Read
+//@   prop C09
+//@   requires wfPos(ip) && !ip.Store.$skip
+//@   modifies ip.pos, ip.curChunk, ip.curChunkIdx, ip.curChunkID, ip.curChunkOffset, heap(Chunk.data), mem(p), ip.Store.$gets, ip.Store.$lastErr
+//@   ensures wfPos(ip)
+//@   ensures 0 <= n && n <= len(p)
+//@   ensures err == nil && len(p) > 0 ==> n > 0
+//@   ensures ip.pos == old(ip.pos) + n
+//@   loop 1: invariant wfPos(ip) && 0 <= totalCopiedBytes && totalCopiedBytes + len(remainingBytes) == len(p) && err == nil
+//@   loop 1: invariant ip.pos == old(ip.pos) + totalCopiedBytes && ip.pos <= ip.Length && remainingBytes == p[totalCopiedBytes:]
+
+//@ func NewIndexReadSeeker
+//@   prop C09
+//@   requires wfChunks(i.Chunks) && truthful(i.Chunks)
+//@   nochecks make
+//@   ensures r0 != nil && r0.pos == 0 && r0.curChunkIdx == 0 && r0.curChunkOffset == 0 && len(r0.curChunk) == 0
+//@   ensures wfPos(r0)
+
+//@ func (f *indexFileHandle) read
+//@   prop C09
+//@   requires wfPos(f.r) && !f.r.Store.$skip && off >= 0
+//@   ghost@entry $last = nil
+//@   ghost@after:Seek $last = $r1
+//@   assert@after:Seek $a0 == off && $a1 == 0
+//# the handle's reader is positioned at the requested offset before any byte is read, under the handle's lock
+//@   oncall Read: requires $last == nil && f.r.pos == off && held(f.mu) == 1
+//@   oncall Seek: requires held(f.mu) == 1
+//@   ensures wfPos(f.r)
+//@   ensures $last != nil ==> r1 != 0
